@@ -1014,7 +1014,33 @@ public:
                 sh_leave();
                 break;
             }
-            default: what = "xcm_remote_addr"; call(S, [&] { return xcm_remote_addr(S.s); }); break;
+            default:
+                if (x % 2 == 0) { what = "xcm_remote_addr"; call(S, [&] { return xcm_remote_addr(S.s); }); break; }
+                {
+                    // an attempt to switch to blocking mode that a signal interrupts while it waits for the
+                    // outstanding work (this call may wait): having failed, it must have changed nothing -
+                    // the socket is still a non-blocking one and the calls that follow are judged as before
+                    what = "xcm_set_blocking(true) interrupted by a signal";
+                    sh_eintr_at(1);
+                    sh_enter(S.tag, 0);
+                    errno = 0;
+                    int rc = xcm_set_blocking(S.s, true);
+                    int se = errno;
+                    sh_leave();
+                    sh_eintr_at(0);
+                    bool now_blocking = xcm_is_blocking(S.s);
+                    c.log("xcm_set_blocking(true) with an EINTR pending -> %d %s; xcm_is_blocking=%d", rc, rc < 0 ? errname(se) : "", (int)now_blocking);
+                    if (rc < 0) {
+                        c.cls("C05:set-blocking-failed");
+                        if (now_blocking) o = failf("C05: xcm_set_blocking(true) failed with %s, yet the socket is in blocking mode now (phase %s, transport %s): later calls on what the application holds for a non-blocking socket will wait", errname(se), PN[phase], tp_name(tp));
+                    } else {
+                        sh_enter(S.tag, 0);
+                        xcm_set_blocking(S.s, false);
+                        sh_leave();
+                    }
+                    t1 = now_s(); // this call was allowed to wait
+                }
+                break;
             }
             double d1 = now_s() - t1;
             ncalls++;
